@@ -460,6 +460,16 @@ Definition commit (s : sdb) : keeper :=
                  end
                else k) (nodup_z (touched s)) (kp s).
 
+(** Commit returns an error (after a partial write) when an object to be written has a negative
+    unibi balance: SetAccBalance would have to burn more than the bank holds.  The interpreter never
+    overdraws (CanTransfer); this is only reachable by protocol-violating call sequences. *)
+Definition commit_fails (s : sdb) : bool :=
+  existsb (fun a => (0 <? dirties s a) &&
+                    match lookup s a with
+                    | Some o => negb (suicided o) && (to_native (bal o) <? 0)
+                    | None => false
+                    end) (nodup_z (touched s)).
+
 (** one transaction: fresh StateDB over the keeper, the ops, Commit *)
 Definition run_tx (k : keeper) (ops : list op) : keeper * list ret :=
   let '(f, rs) := run ops (new_full k) in (commit (core f), rs).
